@@ -144,6 +144,7 @@ pub fn strict_load(b: &[u8]) -> Result<StrictDoc, String> {
     let mut revisions = 0; let mut xref_stream_ids = vec![];
     let mut expected_x: Option<usize> = None;
     let mut version = vec![];
+    let mut newest_size: Option<i64> = None;
     loop {
         // `\nstartxref\n<digits>\n%%EOF` ends this revision at `end`
         let tail_eof = end - 6;
@@ -160,8 +161,11 @@ pub fn strict_load(b: &[u8]) -> Result<StrictDoc, String> {
         if let Some(id) = rev.xref_stream_id { xref_stream_ids.push(id); }
         // objects of this revision
         let lens: BTreeMap<u32, (usize, u16)> = rev.entries.clone();
+        // the Size a reader uses is the newest trailer's: it has to exceed every object number of the WHOLE file
+        let file_size = *newest_size.get_or_insert(rev.size);
         for (num, (off, gen)) in rev.entries.iter() {
             if (*num as i64) >= rev.size { return rule("Size does not exceed every object number"); }
+            if (*num as i64) >= file_size { return rule("Size of the newest trailer does not exceed an object number of an older revision"); }
             // the cross-reference stream occupies its number in this revision: an older object of that number is shadowed
             if Some(*num) == rev.xref_stream_id { seen_nums.entry(*num).or_insert(revisions); continue; }
             let resolve = |id: (u32, u16)| -> Option<i64> { let (o, g) = lens.get(&id.0)?; if *g != id.1 { return None; } match object_at(b, *o, id.0, id.1, &|_| None).ok()?.0 { Object::Integer(n) => Some(n), _ => None } };
